@@ -272,7 +272,7 @@ class Harness:
             return True, thunk()
         except orders.Unsupported as ex:
             raise shape_error('%s not interpretable: %s' % (f.qual, ex), f.loc())
-        except (IndexError, KeyError, TypeError, AttributeError, ValueError, ZeroDivisionError, orders.Raised, RecursionError) as ex:
+        except orders.PROGRAM_ERRORS as ex:
             return False, '%s: %s' % (type(ex).__name__, str(ex)[:200])
 
 
